@@ -1592,3 +1592,74 @@ func pollHelperCall(v ssa.Value) (*ssa.Call, *pollSummary) {
 	}
 	return cl, sum
 }
+
+// ---------------------------------------------------------------------------------------------------------------------
+// checkClaimedReplyDelivered (R11-C02-1; C02-R14): once a reader has taken the waiter of the reply it just read (the
+// waiter's channel is non-nil), every path leads to the hand-over: no return and no next read is reachable from the
+// non-nil edge without passing the send on that channel. (A reader that closes the connection because re-arming a
+// deadline failed, and returns, drops a reply that arrived in time.)
+func checkClaimedReplyDelivered(c *Ctx) {
+	for _, recv := range []string{"TraditionalDnsConn", "reusableConn"} {
+		rl := c.fn(relTransport, recv, "readLoop")
+		if rl == nil {
+			continue
+		}
+		c.see(rl)
+		n := 0
+		eachInstr(rl, func(in ssa.Instruction) {
+			sel, ok := in.(*ssa.Select)
+			if !ok {
+				return
+			}
+			for _, st := range sel.States {
+				if st.Dir != types.SendOnly || !isReplyChanType(st.Chan.Type()) {
+					continue
+				}
+				n++
+				key := "claimed-reply-delivered@" + funcName(rl)
+				ch := st.Chan
+				// the branch that says "there is a waiter"
+				var nonNil []*ssa.BasicBlock
+				for _, r := range referrers(ch) {
+					bo, ok := r.(*ssa.BinOp)
+					if !ok || !isNilConst(bo.Y) || (bo.Op != token.EQL && bo.Op != token.NEQ) {
+						continue
+					}
+					for _, r2 := range referrers(bo) {
+						if iff, ok := r2.(*ssa.If); ok {
+							nonNil = append(nonNil, succOnTruth(iff, bo.Op == token.NEQ))
+						}
+					}
+				}
+				if len(nonNil) == 0 {
+					// no test at all: the select itself must dominate every exit reachable from where the channel is known
+					c.undecided(key, instrPos(in), "the reader hands over without testing whether there is a waiter")
+					continue
+				}
+				isRead := func(x ssa.Instruction) bool {
+					ci, ok := x.(*ssa.Call)
+					if !ok {
+						return false
+					}
+					cn := callName(ci)
+					if cn == "pkg/dnsutils.ReadRawMsgFromTCP" || cn == relTransport+".readMsgUdp" {
+						return true
+					}
+					sc := staticCallee(ci)
+					return sc != nil && sc.Name() == "readResp"
+				}
+				bad := ""
+				for _, b := range nonNil {
+					if x, leaks := reachFromBlock(b, func(x ssa.Instruction) bool { return isReturn(x) || isRead(x) }, func(x ssa.Instruction) bool { return x == ssa.Instruction(sel) }); leaks {
+						bad = c.P.pos(instrPos(x))
+					}
+				}
+				c.check(bad == "", key, instrPos(in), "a reply whose waiter was taken is always handed over",
+					"after the reader took the waiter of the reply it read, it can leave or go on reading without handing the reply over (reaches "+bad+" without the send): the reply arrived in time but its caller gets the close error or a timeout")
+			}
+		})
+		if n == 0 {
+			c.anchorMissing("hand-over select in " + funcName(rl))
+		}
+	}
+}
